@@ -4,10 +4,13 @@
   Model: JRV.Model.ConfigHeap — configurations as aliasable heap objects; the dispatcher's reply is an
   arbitrary function of the per-request configuration as observed and of the request, so every
   theorem holds for every dispatch behaviour, every history and every batch composition.
+  `C13_form_reply`/`C13_form_wire` instantiate it with the reply dictionaries of JRV.Model.Payload.
+
+  Companion theorems of the extracted facts (`C13_gen_*`) live in JRV/Properties/C13Gen.lean.
 -/
 import JRV.Model.ConfigHeap
 import JRV.Model.ConfigHeapConc
-import JRV.Generated
+import JRV.Model.Payload
 
 set_option linter.unusedSimpArgs false
 
@@ -252,11 +255,54 @@ theorem C13_copy_independent (h : Heap) (a : Nat) (v : CfgView) (hv : view h a =
       (by simp [copyObj]; omega) (by simp [copyObj]; omega) (by simp [copyObj]; omega) (by simp [copyObj]; omega)]
     exact hb
 
-/-- Tie to the source: nothing on the serve path writes to shared state, and the only configuration
-    store is applied to the result of `copy()`; `Config.copy()` duplicates both dictionaries. -/
-theorem C13_gen_sharedWrites : Generated.servePathSharedWrites = some [] := by decide
-theorem C13_gen_versionStoreOnCopy : Generated.versionStoreOnCopy = some true := by decide
-theorem C13_gen_copyDuplicates : Generated.configCopyDuplicates = some (true, true) := by decide
+/-- The form of a reply dictionary as the property reads it: 2.0 form iff it has a "jsonrpc" member. -/
+def replyForm (d : PyVal) : Nat :=
+  match d with
+  | .dict kvs => if PyVal.hasKeyStr "jsonrpc" kvs then 20 else 10
+  | _ => 0
+
+/-- What the dispatcher actually builds from the per-request configuration — `Payload.response` (a result,
+    `jsonrpclib.dump(…, is_response=True, config=config)`) and `Payload.error` (every `Fault(…, config=config).dump()`)
+    of JRV.Model.Payload — has exactly the form `formOf` assigns to that configuration: a "jsonrpc" member iff the
+    version is at least 2.0.  This is what makes the abstract `mkReply` statements below statements about replies. -/
+theorem C13_form_reply (v : CfgView) (rpcid result code message data : PyVal) :
+    replyForm (Payload.response v.version rpcid result) = formOf v ∧
+    replyForm (Payload.error v.version rpcid code message data) = formOf v := by
+  by_cases hv : v.version ≥ 20
+  · simp [replyForm, formOf, Payload.response, Payload.error, hv, PyVal.hasKeyStr, PyVal.lookupStr, PyVal.setStr, PyVal.delStr]
+  · simp [replyForm, formOf, Payload.response, Payload.error, hv, PyVal.hasKeyStr, PyVal.lookupStr, PyVal.setStr, PyVal.delStr]
+
+/-- The form claim of the property, per kind of entry, for EVERY reply builder that renders with the configuration
+    it is handed (hypotheses `hm`, `hi`; `Payload.response`/`Payload.error` do, by `C13_form_reply`):
+      * a validated entry without "jsonrpc" is answered in 1.0 form, whatever the server's version;
+      * a validated entry with "jsonrpc" in the server's own form;
+      * an invalid entry in the server's own form (the reading recorded in DESIGN.md section 5/C13: a request that
+        fails validation never reaches the version adaptation — `{"id":4,"method":5}` on a 2.0 server gets a
+        2.0-form error; the harness counts these entries in the evidence). -/
+theorem C13_form_wire (mkReply : CfgView → Req → PyVal) (mkInvalid : CfgView → PyVal → PyVal)
+    (hm : ∀ v r, replyForm (mkReply v r) = formOf v) (hi : ∀ v p, replyForm (mkInvalid v p) = formOf v)
+    (sv : CfgView) (r : Req) (p : PyVal) :
+    (r.hasJsonrpc = false → replyForm (specReply mkReply mkInvalid sv (.valid r)) = 10) ∧
+    (r.hasJsonrpc = true → replyForm (specReply mkReply mkInvalid sv (.valid r)) = formOf sv) ∧
+    replyForm (specReply mkReply mkInvalid sv (.invalid p)) = formOf sv := by
+  refine ⟨?_, ?_, ?_⟩
+  · intro hj
+    by_cases hv : sv.version ≥ 20
+    · simp [specReply, hj, hv, hm, formOf]
+    · simp [specReply, hj, hv, hm, formOf]
+  · intro hj; simp [specReply, hj, hm]
+  · simp [specReply, hi]
+
+/-- A reply builder that ignores the configuration it is handed and renders with the server's (the edit
+    `config=self.json_config` in one Fault of `_marshaled_single_dispatch`) does NOT satisfy `hm`: on a 2.0 server a
+    1.0 request would be answered in 2.0 form.  (Shows the hypothesis of `C13_form_wire` is what carries the claim;
+    the extractor fact `replyConfigSites` checks it site by site in the source.) -/
+theorem C13_form_wire_needs_request_config :
+    let sv : CfgView := ⟨20, "ct", "ua", true, "_serialize", "_ignore", [], []⟩
+    let bad : CfgView → Req → PyVal := fun _ _ => Payload.error sv.version (.int 1) (.int (-32603)) (.str "x") .none
+    replyForm (specReply bad (fun v _ => Payload.error v.version .none (.int (-32600)) (.str "i") .none) sv
+      (.valid ⟨false, .none⟩)) = 20 := by
+  decide
 
 /- Non-vacuity: a server object and the shared default living in one heap. -/
 example :
